@@ -352,6 +352,25 @@ func mentionsAny(e *SExpr, names map[string]bool) bool {
 	return false
 }
 
+// evalClause evaluates a Boolean clause. With Options.LenientNames a clause that refers to an
+// identifier the function does not (any longer) have is skipped: ok = false and a note is recorded.
+func (env *specEnv) evalClause(e *SExpr) (t smt.Term, ok bool) {
+	if !env.fv.opt.LenientNames {
+		return env.evalBool(e), true
+	}
+	defer func() {
+		if r := recover(); r != nil {
+			if u, isU := r.(unsupported); isU && strings.Contains(string(u), "unknown identifier") {
+				env.fv.note("clause skipped, it names an identifier the function no longer has: %s", e.String())
+				ok = false
+				return
+			}
+			panic(r)
+		}
+	}()
+	return env.evalBool(e), true
+}
+
 // tryEval evaluates e, reporting false instead of failing the function when e is unsupported.
 func (env *specEnv) tryEval(e *SExpr) (v sval, ok bool) {
 	defer func() {
@@ -1239,7 +1258,11 @@ func (fv *funcVerifier) finishExits() {
 			}
 			start := len(fv.assumptions)
 			for _, e := range fv.spec.Ensures {
-				o := fv.assert(ex, "ensures", fmt.Sprintf("%s@return%d", e.String(), k+1), fv.fi.Decl.End(), envk.evalBool(e))
+				ct, cok := envk.evalClause(e)
+				if !cok {
+					continue
+				}
+				o := fv.assert(ex, "ensures", fmt.Sprintf("%s@return%d", e.String(), k+1), fv.fi.Decl.End(), ct)
 				if o != nil && k < len(fv.exitAssume) && fv.exitAssume[k] < start {
 					o.skipFrom, o.skipTo = fv.exitAssume[k], start
 				}
@@ -1247,7 +1270,9 @@ func (fv *funcVerifier) finishExits() {
 		}
 	} else {
 		for _, e := range fv.spec.Ensures {
-			fv.assert(exit, "ensures", e.String(), fv.fi.Decl.End(), env.evalBool(e))
+			if ct, cok := env.evalClause(e); cok {
+				fv.assert(exit, "ensures", e.String(), fv.fi.Decl.End(), ct)
+			}
 		}
 	}
 
@@ -1623,7 +1648,9 @@ func (fv *funcVerifier) assertLoopInvs(st *State, spec *LoopSpec, pre *State, ki
 	}
 	env := fv.loopEnv(st)
 	for _, inv := range spec.Invariants {
-		fv.assert(st, kind, key+":"+inv.String(), pos, env.evalBool(inv))
+		if ct, cok := env.evalClause(inv); cok {
+			fv.assert(st, kind, key+":"+inv.String(), pos, ct)
+		}
 	}
 }
 
@@ -1633,7 +1660,9 @@ func (fv *funcVerifier) assumeLoopInvs(st *State, spec *LoopSpec, pre *State) {
 	}
 	env := fv.loopEnv(st)
 	for _, inv := range spec.Invariants {
-		fv.assume(st, env.evalBool(inv))
+		if ct, cok := env.evalClause(inv); cok {
+			fv.assume(st, ct)
+		}
 	}
 }
 
